@@ -26,6 +26,14 @@ import (
 
 // World is the environment of one simulated run.
 type World struct {
+	// NetBuf is the send-buffer size of simulated TCP connections (0: 64 KiB).
+	NetBuf int
+	// NetChoose draws the network task's decisions (set by Run).
+	NetChoose     func(n int, tag string) int
+	NetDeliveries int
+	halves        []*tcpHalf
+	netStarted    bool
+	netKick       chan struct{}
 	R     *core.Run
 	T     *core.Tape
 	FS    *core.FS
@@ -138,6 +146,11 @@ func Run(r *core.Run, opt Options, body func(w *World)) (w *World) {
 			w.Sched = core.NewSched(func(n int, tag string) int { return r.T.Choose(n, tag) })
 			if opt.MaxSteps > 0 {
 				w.Sched.MaxStep = opt.MaxSteps
+			}
+			w.Sched.Priority = r.SchedMode == "priority"
+			w.NetChoose = func(n int, tag string) int { return r.T.Choose(n, tag) }
+			if opt.Cooperative {
+				r.Probe("schedule-" + r.SchedMode)
 			}
 			if opt.Cooperative {
 				w.FS.Sched = w.Sched
